@@ -206,8 +206,14 @@ class _STIXBase(collections.abc.Mapping):
         assigned_properties = collections.ChainMap(kwargs, custom_props)
 
         # Establish property order: spec-defined, toplevel extension, custom.
-        toplevel_extension_props = registered_toplevel_extension_props.keys() \
-            | (kwargs.keys() - self._properties.keys() - custom_kwargs)
+        # (in a definite order: as the extensions define them, then as given --
+        # a set would make the serialized order depend on the hash seed)
+        toplevel_extension_props = list(registered_toplevel_extension_props)
+        toplevel_extension_props.extend(
+            name for name in kwargs
+            if name not in self._properties and name not in custom_kwargs and
+            name not in registered_toplevel_extension_props
+        )
         property_order = itertools.chain(
             self._properties,
             toplevel_extension_props,
